@@ -202,6 +202,12 @@ def classify(diags, ug, canary=False):
                 for p in f.proofs:
                     if p.id == pid and p.tags:
                         tags = list(p.tags)
+                if not tags:
+                    # a proof step supports every contract clause of its function
+                    for c in f.all_clauses():
+                        for t in c.tags:
+                            if t not in tags:
+                                tags.append(t)
         f = ug.fn_specs.get(fn) if fn else None
         if kind in ('overflow', 'index', 'div0', 'bitshift', 'termination', 'decreases', 'rlimit') or not tags:
             if f:
